@@ -11,30 +11,47 @@ Property C11 — scope close protocol, stated over the transition system `Goat/M
 
 Quantification.  `run sched` is the state after the schedule `sched : List Act`; acts that are not
 enabled when their turn comes are skipped.  The acts build the trees (`new`, `child p iso`), register
-the listeners (`on s ev fails`: a listener that returns nil or an error), and are the calls of the
-property (`addTasks`, `doneTask`, `appErr`, `kill`, `stop`, `close` = first half of `Close`,
-`finish` = second half of `Close`, enabled only when the wait group is zero) and the moves of the
-watcher goroutine of an isolated context (`propagate`, `watcherExit`).  Every theorem is for every
-schedule (any length, any interleaving, any number of trees of any depth, any listener set).
+the listeners (`on s ev fails`: a listener that returns nil or an error at once; `onGated s ev fails g`:
+a listener of a close event that RUNS until gate `g` has been opened by `release g` and then returns
+nil or an error), and are the calls of the property (`addTasks`, `doneTask`, `appErr`, `kill`, `stop`)
+and the moves of the goroutines: of the watcher of an isolated context (`propagate`, `watcherExit`)
+and of the goroutine running `Close`, whose program counter is `(st.scp s).phase`:
+  opened ─close→ begun → closing ─pick→ t0 → t1 → t2 → after → signing → signed → finished
+`close s` is the guard and the start of the BeforeClose trigger; `step s` is one step (a running
+listener returns and the trigger goes on until it ends or parks in the next gated listener; the wait
+ends — `pick`, enabled only when the wait group is zero —; a trigger starts; `parent.DoneTask()`;
+return); `finish s` is the coarse act "the wait ends and the goroutine runs on until it parks or
+returns" (with ungated listeners: the whole second half of `Close`).  While a goroutine is parked
+inside a listener every other goroutine may act.  Every theorem is for every schedule (any length, any
+interleaving, any number of trees of any depth, any listener set, gated or not).
 
 Vocabulary (`Goat/Model/Scope.lean`, `Goat/Proofs/Scope*.lean`):
   `st.closeTrace s`   the close-protocol events scope `s` has fired (its own `Trigger` calls), in order
+  `fullSeq rb`        beforeClose, the rollback (`rb`) or commit triple, afterClose
+  `closeSeq ph rb pk` the first `ph.idx (+1 if pk)` events of `fullSeq rb`
   `st.hasErr s`       `len(s.Errors()) != 0`;   `st.isDone s`  `s.IsDone()`
-  `(st.scp s).phase`  `opened` / `closing` (Close waits) / `finished` (Close returned)
+  `(st.scp s).phase`  the program counter above; `.live` = not yet signed off; `.waited` = `Wait()` has returned
+  `(st.scp s).park`   `some _` while the closing goroutine of `s` is inside a (gated) listener
+  `(st.scp s).rolled` the branch chosen when the wait ended;  `(st.scp s).lfail`  a trigger of its `Close`
+                      returned an error;  `(st.scp c).late`  `c` was created after its parent's wait had ended
   `(st.scp c).registered`  the child signed on with its parent (`NewChild` found the parent not done)
   `exec st a = some (st', o)`  act `a` is enabled in `st`, leads to `st'`, the call's outcome is `o`
+  `IsPick st a s`      `a` ends the wait of `s`: `finish s`, or `step s` while `s` sits in `Wait()`
   `SharedLink st c p`  `c` is `p` or descends from `p` through children sharing their parent's context
-  `Act.onScope a c`    `a` is `appErr c`, `kill c`, `stop c`, `close c` or `finish c`
+  `Act.onScope a c`    `a` is `appErr c`, `kill c`, `stop c`, `close c`, `finish c` or `step c`
 
 Domain of the model (see its header): `doneTask` only for an outstanding task; no child of a scope
-whose `Close` has returned.
+that has signed off; `On` on an event scope waits while one of its listeners runs; only listeners of the
+eight close events are gated.
 
 Known finding KF-C11-1 (`close_waits_full_false`): a child created from a scope whose context is
 already done does not sign on (`parent.AddTasks(1)` is refused), so the parent's `Close` does not
 wait for it.  `close_waits_partial` proves the waiting clause for the tasks and for every child that
-signed on, i.e. every child created while its parent was not done.
+signed on, i.e. every child created while its parent was not done.  A child created after the wait
+has ended (`late`; e.g. by a commit listener) cannot be waited for by any implementation; the
+all-states form `child_afterclose_before_parent_triple` is about the children that existed then.
 -/
-import Goat.Proofs.ScopeProps
+import Goat.Proofs.ScopeClose
 
 namespace Goat.C11
 
@@ -42,23 +59,40 @@ open Goat.Scope
 
 /-! ### 1. Ordered events, each once -/
 
-/-- The close events a scope has fired are: nothing before `Close`; `beforeClose` while `Close`
-waits; `beforeClose`, one triple, `afterClose` once it returned — never anything else, so no event
-is repeated or out of order, whatever else happens in the schedule. -/
+/-- In every reachable state the close events a scope has fired are exactly the first events of
+beforeClose · triple · afterClose that its program counter accounts for (the triggers that have ended
+plus the one a listener of which is running) — never anything else, so no event is repeated or out
+of order, whatever else happens in the schedule. -/
 theorem close_event_order (sched : List Act) (s : Nat) :
-    ((run sched).scp s).phase = .opened ∧ (run sched).closeTrace s = [] ∨
-    ((run sched).scp s).phase = .closing ∧ (run sched).closeTrace s = [.beforeClose] ∨
-    ((run sched).scp s).phase = .finished ∧
+    (run sched).closeTrace s =
+      closeSeq ((run sched).scp s).phase ((run sched).scp s).rolled ((run sched).scp s).park.isSome :=
+  (inv_run sched).order s
+
+/-- The three situations of the coarse protocol: nothing before `Close`; `beforeClose` while `Close`
+waits; the whole sequence once it has signed off or returned. -/
+theorem close_event_order_coarse (sched : List Act) (s : Nat) :
+    (((run sched).scp s).phase = .opened → (run sched).closeTrace s = []) ∧
+    (((run sched).scp s).phase = .closing → (run sched).closeTrace s = [.beforeClose]) ∧
+    (((run sched).scp s).phase.live = false →
       ((run sched).closeTrace s = [.beforeClose, .beforeCommit, .commit, .afterCommit, .afterClose] ∨
-       (run sched).closeTrace s = [.beforeClose, .beforeRollback, .rollback, .afterRollback, .afterClose]) := by
-  have h := (inv_run sched).order s
-  cases hp : ((run sched).scp s).phase <;> rw [hp] at h
-  · exact Or.inl ⟨rfl, h⟩
-  · exact Or.inr (Or.inl ⟨rfl, h⟩)
-  · refine Or.inr (Or.inr ⟨rfl, ?_⟩)
-    cases hr : ((run sched).scp s).rolled <;> rw [hr] at h
-    · exact Or.inl h
-    · exact Or.inr h
+       (run sched).closeTrace s = [.beforeClose, .beforeRollback, .rollback, .afterRollback, .afterClose])) := by
+  have hI := inv_run sched
+  refine ⟨?_, ?_, ?_⟩
+  · intro hp
+    rw [hI.order s, hI.x.park_none (by rw [hp]; rfl), hp]; rfl
+  · intro hp
+    rw [hI.order s, hI.x.park_none (by rw [hp]; rfl), hp]
+    cases ((run sched).scp s).rolled <;> rfl
+  · intro hl
+    rw [(signed_off_facts hI hl).2]
+    cases ((run sched).scp s).rolled
+    · exact Or.inl rfl
+    · exact Or.inr rfl
+
+/-- … and at every moment the events fired are a prefix of one of the two full sequences. -/
+theorem close_events_prefix (sched : List Act) (s : Nat) :
+    (run sched).closeTrace s <+: fullSeq ((run sched).scp s).rolled := by
+  rw [close_event_order]; exact closeSeq_prefix _ _ _
 
 -- a child that closes while its parent waits, listeners failing on the way: the child is finished,
 -- the parent (scope 0) has fired beforeClose only
@@ -68,24 +102,53 @@ example :
       st.closeTrace 1 = [.beforeClose, .beforeRollback, .rollback, .afterRollback, .afterClose] ∧
       st.closeTrace 0 = [.beforeClose] := by decide
 
+-- a goroutine parked in a commit listener: three events fired, the third one's trigger is running
+example :
+    let st := run [.new, .onGated 0 .commit false 3, .close 0, .finish 0]
+    (st.scp 0).phase = .t1 ∧ st.parked 0 = true ∧ st.closeTrace 0 = [.beforeClose, .beforeCommit, .commit] := by
+  decide
+
 /-! ### 2. Commit xor rollback, by the error state at that moment -/
 
-/-- When the second half of `Close` runs (the wait is over) it fires the commit triple if the scope
-holds no error at that moment and the rollback triple if it holds one; with `beforeClose` before and
-`afterClose` after, that is the whole list of close events of the scope. -/
-theorem commit_xor_rollback (sched : List Act) (s : Nat) (st' : State) (o : Outcome)
-    (he : exec (run sched) (.finish s) = some (st', o)) :
+/-- When the wait of `s` ends (`finish s`, or the `step s` of a goroutine sitting in `Wait()`), the
+branch is the error state of that moment — rollback iff the scope holds an error —, and in EVERY
+continuation of the schedule the events of `s` are a prefix of beforeClose · that triple · afterClose,
+the whole of it once `s` has signed off. -/
+theorem commit_xor_rollback (sched : List Act) (s : Nat) (a : Act) (hp : IsPick (run sched) a s)
+    (st' : State) (o : Outcome) (he : exec (run sched) a = some (st', o)) :
+    (st'.scp s).rolled = (run sched).hasErr s ∧
+    ∀ rest : List Act,
+      (runFrom st' rest).closeTrace s <+: fullSeq ((run sched).hasErr s) ∧
+      (((runFrom st' rest).scp s).phase.live = false →
+        (runFrom st' rest).closeTrace s = fullSeq ((run sched).hasErr s)) := by
+  have hI := inv_run sched
+  obtain ⟨hs, _, _, _, _, _, hm, hw, hr⟩ := pick_facts hI hp he
+  refine ⟨hr, fun rest => ?_⟩
+  have hs' : s < st'.nScopes := Nat.lt_of_lt_of_le (by simpa [State.pick] using hs) hm.nScopes
+  have := trace_follows_pick (inv_exec hI he) hs' hw rest
+  rw [hr] at this
+  exact ⟨this.2.1, this.2.2⟩
+
+/-- With ungated listeners the coarse `finish` is the whole second half of `Close`. -/
+theorem commit_xor_rollback_coarse (sched : List Act) (s : Nat) (st' : State) (e : Bool)
+    (he : exec (run sched) (.finish s) = some (st', .closed e)) :
     ((run sched).hasErr s = false →
       st'.closeTrace s = [.beforeClose, .beforeCommit, .commit, .afterCommit, .afterClose]) ∧
     ((run sched).hasErr s = true →
       st'.closeTrace s = [.beforeClose, .beforeRollback, .rollback, .afterRollback, .afterClose]) := by
-  have h := (finish_outcome (inv_run sched) he).1
-  constructor <;> intro hh <;> rw [hh] at h <;> exact h
+  have hI := inv_run sched
+  have hc := closed_facts hI (Or.inl rfl) he
+  have h := (commit_xor_rollback sched s (.finish s) (Or.inl rfl) st' _ he).2 []
+  have hl : (st'.scp s).phase.live = false := by rw [hc.2.2.1]; rfl
+  have ht := h.2 hl
+  constructor <;> intro hh <;> rw [hh] at ht <;> exact ht
 
 /-- In no reachable state has a scope fired both a commit event and a rollback event. -/
 theorem commit_rollback_exclusive (sched : List Act) (s : Nat) :
     ¬ (Ev.commit ∈ (run sched).closeTrace s ∧ Ev.rollback ∈ (run sched).closeTrace s) := by
-  rcases close_event_order sched s with ⟨_, h⟩ | ⟨_, h⟩ | ⟨_, h | h⟩ <;> rw [h] <;> decide
+  rw [close_event_order]
+  cases ((run sched).scp s).phase <;> cases ((run sched).scp s).rolled <;>
+    cases ((run sched).scp s).park.isSome <;> decide
 
 -- an error appended while `Close` waits turns the commit into a rollback
 example :
@@ -93,44 +156,44 @@ example :
     st.hasErr 0 = true ∧ exec st (.finish 0) ≠ none := by decide
 example :
     let st := run [.new, .addTasks 0 1, .close 0, .doneTask 0]
-    st.hasErr 0 = false ∧ exec st (.finish 0) ≠ none := by decide
+    st.hasErr 0 = false ∧ exec st (.finish 0) ≠ none ∧ IsPick st (.step 0) 0 ∧ exec st (.step 0) ≠ none := by
+  refine ⟨by decide, by decide, Or.inr ⟨rfl, by decide⟩, by decide⟩
 
 /-! ### 3. Close waits for tasks and children -/
 
-/-- The second half of `Close` can run only when every task added has been completed and every child
-that signed on has returned from its own `Close`. -/
-theorem close_waits_partial (sched : List Act) (s : Nat) (st' : State) (o : Outcome)
-    (he : exec (run sched) (.finish s) = some (st', o)) :
+/-- The wait of `s` can end only when every task added has been completed and every child that signed
+on has SIGNED OFF — which it does after its AfterClose trigger has ended: it has fired its whole
+sequence, after-close last, and none of its listeners is running any more. -/
+theorem close_waits_partial (sched : List Act) (s : Nat) (a : Act) (hp : IsPick (run sched) a s)
+    (st' : State) (o : Outcome) (he : exec (run sched) a = some (st', o)) :
     ((run sched).scp s).dones = ((run sched).scp s).adds ∧
     ∀ c, ((run sched).scp c).parent = some s → ((run sched).scp c).registered = true →
-      ((run sched).scp c).phase = .finished := by
-  have h := (inv_run sched).s
-  obtain ⟨_, _, hwg, _, _⟩ := exec_finish_inv he
-  have h1 := h.wgEq s
-  have h2 := h.donesLe s
-  rw [hwg] at h1
-  have hk : ((run sched).scp s).kids = [] := List.eq_nil_of_length_eq_zero (by omega)
-  refine ⟨by omega, ?_⟩
-  intro c hp hr
-  apply Classical.byContradiction
-  intro hph
-  have := h.kidsMem c s hp hr hph
-  rw [hk] at this
-  cases this
+      ((run sched).scp c).phase.live = false ∧ ((run sched).scp c).park = none ∧
+      (run sched).closeTrace c = fullSeq ((run sched).scp c).rolled := by
+  have hI := inv_run sched
+  obtain ⟨_, _, _, hk, hd, _⟩ := pick_facts hI hp he
+  refine ⟨hd, ?_⟩
+  intro c hpar hr
+  have hl : ((run sched).scp c).phase.live = false := by
+    cases hl : ((run sched).scp c).phase.live with
+    | false => rfl
+    | true =>
+      have := hI.s.kidsMem c s hpar hr hl
+      rw [hk] at this; cases this
+  exact ⟨hl, signed_off_facts hI hl⟩
 
 /-- `registered` is decided when the child is created: it signs on iff the parent is not done. -/
 theorem registered_iff_parent_not_done (st : State) (p : Nat) (iso : Bool) :
     ((st.newChild p iso).scp st.nScopes).registered = !(st.isDone p) ∧
     ((st.newChild p iso).scp st.nScopes).parent = some p := by
-  unfold State.newChild
-  cases iso <;> cases hd : st.isDone p <;> simp [upd]
+  rw [newChild_scp_new]; exact ⟨rfl, rfl⟩
 
 /-- The full waiting clause ("every child scope has itself been closed") is false — KF-C11-1:
 stop the root, create a child, close the root: `Close` returns although the child is open. -/
 theorem close_waits_full_false :
     ¬ (∀ (sched : List Act) (s : Nat) (st' : State) (o : Outcome),
         exec (run sched) (.finish s) = some (st', o) →
-        ∀ c, ((run sched).scp c).parent = some s → ((run sched).scp c).phase = .finished) := by
+        ∀ c, ((run sched).scp c).parent = some s → ((run sched).scp c).phase.live = false) := by
   intro h
   have hex : ∃ r, exec (run [.new, .stop 0, .child 0 false, .close 0]) (.finish 0) = some r := by
     cases hr : exec (run [.new, .stop 0, .child 0 false, .close 0]) (.finish 0) with
@@ -149,37 +212,71 @@ example :
 example :
     exec (run [.new, .child 0 false, .child 0 true, .addTasks 0 1, .close 0, .close 2, .finish 2,
                .doneTask 0, .close 1]) (.finish 0) = none := by decide
+-- … and while the child's after-close listener is still running (gate 7 closed), and no longer after it
+example :
+    let st := run [.new, .child 0 false, .onGated 1 .afterClose false 7, .close 0, .close 1, .finish 1]
+    st.parked 1 = true ∧ exec st (.finish 0) = none ∧ exec st (.step 0) = none ∧
+      exec (runFrom st [.release 7, .step 1, .step 1]) (.finish 0) ≠ none := by decide
 
 /-! ### 4. The reported error -/
 
-/-- `Close` returns an error iff the scope holds one when it returns (and that is what is recorded
-as its result); an error present when the wait ended is still reported. -/
-theorem close_result (sched : List Act) (s : Nat) (st' : State) (o : Outcome)
-    (he : exec (run sched) (.finish s) = some (st', o)) :
-    o = .closed (st'.hasErr s) ∧ (st'.scp s).result = some (st'.hasErr s) ∧
-    ((run sched).hasErr s = true → o = .closed true) := by
-  obtain ⟨_, h2, h3, h4⟩ := finish_outcome (inv_run sched) he
-  exact ⟨h2, h3, fun h => by rw [h2, h4 h]⟩
+/-- When `Close` returns (the coarse `finish s` or a `step s`), it returns an error iff the scope
+holds one at that moment, and that is what is recorded as its result; it is an error whenever the
+rollback branch was taken (the scope held an error when the wait ended) or a listener of this `Close`
+returned one. -/
+theorem close_result (sched : List Act) (s : Nat) (a : Act) (ha : a = .finish s ∨ a = .step s)
+    (st' : State) (e : Bool) (he : exec (run sched) a = some (st', .closed e)) :
+    e = st'.hasErr s ∧ (st'.scp s).result = some e ∧ (st'.scp s).phase = .finished ∧
+    ((st'.scp s).rolled = true → e = true) ∧ ((st'.scp s).lfail = true → e = true) :=
+  closed_facts (inv_run sched) ha he
+
+/-- An error present when the wait ended is still reported, in whatever continuation `Close` returns. -/
+theorem close_result_keeps_error (sched : List Act) (s : Nat) (a : Act) (hp : IsPick (run sched) a s)
+    (st' : State) (o : Outcome) (he : exec (run sched) a = some (st', o))
+    (herr : (run sched).hasErr s = true) (rest : List Act) (b : Act) (hb : b = .finish s ∨ b = .step s)
+    (st'' : State) (e : Bool) (he2 : exec (runFrom st' rest) b = some (st'', .closed e)) : e = true := by
+  have hI := inv_run sched
+  obtain ⟨hs, _, _, _, _, _, hm, hw, hr⟩ := pick_facts hI hp he
+  have hI' := inv_exec hI he
+  have hs' : s < st'.nScopes := Nat.lt_of_lt_of_le (by simpa [State.pick] using hs) hm.nScopes
+  have m1 := (mono_runFrom hI' rest).waited s hs' hw
+  have hI2 := inv_runFrom hI' rest
+  have m2 := (mono_exec hI2 he2).waited s (Nat.lt_of_lt_of_le hs' (mono_runFrom hI' rest).nScopes) m1.1
+  have hc := closed_facts hI2 hb he2
+  exact hc.2.2.2.1 (by rw [m2.2, m1.2, hr, herr])
+
+/-- The coarse `finish` returns from `Close` or leaves the goroutine parked in a listener. -/
+theorem finish_returns_or_parks (sched : List Act) (s : Nat) (st' : State) (o : Outcome)
+    (he : exec (run sched) (.finish s) = some (st', o)) : o = .ok ∨ ∃ e, o = .closed e :=
+  finish_ok_or_closed he
 
 -- a listener failing on afterCommit makes a committing Close report an error
 example :
     (exec (run [.new, .on 0 .afterCommit true, .close 0]) (.finish 0)).map (·.2) = some (.closed true) ∧
     (run [.new, .on 0 .afterCommit true, .close 0]).hasErr 0 = false := by decide
 example : (exec (run [.new, .close 0]) (.finish 0)).map (·.2) = some (.closed false) := by decide
+-- the same listener gated: `finish` parks (outcome ok), the `step` after the release … returns the error
+example :
+    let st := run [.new, .onGated 0 .afterCommit true 1, .close 0]
+    (exec st (.finish 0)).map (·.2) = some .ok ∧
+    (exec (runFrom st [.finish 0, .release 1, .step 0, .step 0, .step 0]) (.step 0)).map (·.2) = some (.closed true) := by
+  decide
 
 /-! ### 5. Closing twice -/
 
-/-- A `Close` on a scope whose `Close` has begun (waiting or returned) panics and changes nothing:
-no event, no listener call, no state change. -/
+/-- A `Close` on a scope whose `Close` has begun (running, waiting or returned) panics and changes
+nothing: no event, no listener call, no state change. -/
 theorem double_close_refused (sched : List Act) (s : Nat) (hs : s < (run sched).nScopes)
     (hph : ((run sched).scp s).phase ≠ .opened) :
     exec (run sched) (.close s) = some (run sched, .panic) := by
-  simp [exec, hs, hph]
+  simp [exec, execWith, hs, hph]
 
-/-- … and the second half of `Close` cannot run a second time. -/
-theorem finish_once (sched : List Act) (s : Nat) (hph : ((run sched).scp s).phase = .finished) :
+/-- … and the wait cannot end a second time, nor can the coarse second half run again. -/
+theorem finish_once (sched : List Act) (s : Nat) (hph : ((run sched).scp s).phase.waited = true) :
     exec (run sched) (.finish s) = none := by
-  simp [exec, hph]
+  have : ((run sched).scp s).phase ≠ .closing := by
+    intro h; rw [h] at hph; cases hph
+  simp [exec, execWith, this]
 
 example : ((run [.new, .addTasks 0 1, .close 0]).scp 0).phase ≠ .opened ∧ 0 < (run [.new, .addTasks 0 1, .close 0]).nScopes := by
   decide
@@ -195,14 +292,16 @@ theorem shared_same_fate (sched : List Act) (c p : Nat) (l : SharedLink (run sch
 
 /-- After a successful `AppendError` or `Kill` on `c`, every scope `p` that `c` is linked to through
 shared contexts holds an error and is done, and stays so for every continuation of the schedule;
-when `p`'s `Close` then finishes it fires the rollback triple and returns an error. -/
+when the wait of `p`'s `Close` then ends it takes the rollback branch, and when that `Close` returns
+it returns an error. -/
 theorem shared_child_fails_parent (sched : List Act) (c p : Nat) (l : SharedLink (run sched) c p)
     (hp : p < (run sched).nScopes) (a : Act) (ha : a = .appErr c ∨ a = .kill c) (st' : State)
     (he : exec (run sched) a = some (st', .ok)) (rest : List Act) :
     (runFrom st' rest).hasErr p = true ∧ (runFrom st' rest).isDone p = true ∧
-    ∀ st'' o, exec (runFrom st' rest) (.finish p) = some (st'', o) →
-      o = .closed true ∧
-      st''.closeTrace p = [.beforeClose, .beforeRollback, .rollback, .afterRollback, .afterClose] := by
+    (∀ b st'' o, IsPick (runFrom st' rest) b p → exec (runFrom st' rest) b = some (st'', o) →
+      (st''.scp p).rolled = true ∧ st''.closeTrace p <+: fullSeq true) ∧
+    (∀ b st'' e, b = .finish p ∨ b = .step p → exec (runFrom st' rest) b = some (st'', .closed e) →
+      e = true) := by
   have hI := inv_run sched
   have hI' : Inv st' := inv_exec hI he
   have hctx := l.ctx_eq hI.s
@@ -211,18 +310,31 @@ theorem shared_child_fails_parent (sched : List Act) (c p : Nat) (l : SharedLink
   have m1 := mono_exec hI he
   have m2 := mono_runFrom hI' rest
   have m := m1.trans m2
+  have hI2 := inv_runFrom hI' rest
   have hc : ((runFrom st' rest).scp p).ctx = ((run sched).scp p).ctx := m.ctx p hp
   have herr : (runFrom st' rest).hasErr p = true := by
     simp only [State.hasErr, State.ctxOf, bne_iff_ne, ne_eq, hc]
     have := m2.errors ((run sched).scp p).ctx
     omega
-  refine ⟨herr, ?_, ?_⟩
+  refine ⟨herr, ?_, ?_, ?_⟩
   · simp only [State.isDone, State.ctxOf, hc]
     exact m2.done _ hf.2
-  · intro st'' o hfin
-    obtain ⟨h1, h2, _, h4⟩ := finish_outcome (inv_runFrom hI' rest) hfin
-    rw [herr] at h1
-    exact ⟨by rw [h2, h4 herr], h1⟩
+  · intro b st'' o hb hfin
+    obtain ⟨_, _, _, _, _, _, _, _, hr⟩ := pick_facts hI2 hb hfin
+    have hI3 := inv_exec hI2 hfin
+    rw [herr] at hr
+    refine ⟨hr, ?_⟩
+    rw [hI3.order p, hr]; exact closeSeq_prefix _ _ _
+  · intro b st'' e hb hfin
+    have hcl := closed_facts hI2 hb hfin
+    have m3 := mono_exec hI2 hfin
+    have hp2 : p < (runFrom st' rest).nScopes := Nat.lt_of_lt_of_le hp m.nScopes
+    rw [hcl.1]
+    simp only [State.hasErr, State.ctxOf, bne_iff_ne, ne_eq, m3.ctx p hp2]
+    have h0 : ((runFrom st' rest).ctx ((runFrom st' rest).scp p).ctx).errors ≠ 0 := by
+      simpa [State.hasErr, State.ctxOf] using herr
+    have := m3.errors ((runFrom st' rest).scp p).ctx
+    omega
 
 -- a grandchild through two shared links kills itself: the root is failed
 example : SharedLink (run [.new, .child 0 false, .child 1 false]) 2 0 :=
@@ -238,10 +350,11 @@ theorem isolated_child_own_context (sched : List Act) (c p : Nat)
   have := ((inv_run sched).s.isoCtx c p hp hi).2
   omega
 
-/-- Whatever a scope `c` does through `AppendError`, `Kill`, `Stop` or its `Close` — including every
-error returned by a listener on the way — leaves every scope `p` with a different context exactly as
-it was: same errors, same done state.  (With `isolated_child_own_context` and `shared_same_fate`:
-nothing an isolated child or its shared descendants do fails the parent.) -/
+/-- Whatever a scope `c` does through `AppendError`, `Kill`, `Stop` or its `Close` (any step of its
+closing goroutine) — including every error returned by a listener on the way — leaves every scope `p`
+with a different context exactly as it was: same errors, same done state.  (With
+`isolated_child_own_context` and `shared_same_fate`: nothing an isolated child or its shared
+descendants do fails the parent.) -/
 theorem isolated_child_contained (sched : List Act) (c p : Nat)
     (hne : ((run sched).scp c).ctx ≠ ((run sched).scp p).ctx) (hp : p < (run sched).nScopes)
     (a : Act) (ha : a.onScope c) (st' : State) (o : Outcome) (he : exec (run sched) a = some (st', o)) :
@@ -250,7 +363,7 @@ theorem isolated_child_contained (sched : List Act) (c p : Nat)
   have m := mono_exec (inv_run sched) he
   have h1 : st'.ctxOf p = (run sched).ctxOf p := by
     simp only [State.ctxOf, m.ctx p hp]
-    exact exec_footprint ha he _ (fun e => hne e.symm)
+    exact exec_footprint (inv_run sched) ha he _ (fun e => hne e.symm)
   simp [State.hasErr, State.isDone, h1]
 
 -- an isolated child kills itself: the act is enabled, the contexts differ
@@ -281,7 +394,7 @@ theorem isolated_inherits_stop (sched : List Act) (c p : Nat)
     have hlt := h.ctxParent_lt_n hpar
     refine ⟨(run sched).modCtx ((run sched).scp c).ctx fun x =>
       { x with errors := if false = true then x.errors + 1 else x.errors, done := true, watch := false }, ?_, ?_⟩
-    · simp only [exec, hpar]
+    · simp only [exec, execWith, hpar]
       rw [if_pos ⟨hlt, hw, hd, fun hf => by cases hf⟩]
     · simp [State.isDone, State.ctxOf]
 
@@ -304,7 +417,7 @@ theorem isolated_inherits_kill (sched : List Act) (c p : Nat)
     simpa [State.hasErr, State.ctxOf] using hd
   refine ⟨(run sched).modCtx ((run sched).scp c).ctx fun x =>
     { x with errors := if true = true then x.errors + 1 else x.errors, done := true, watch := false }, ?_, ?_, ?_⟩
-  · simp only [exec, hpar]
+  · simp only [exec, execWith, hpar]
     rw [if_pos ⟨hlt, hw, h.errDone _ herr, fun _ => herr⟩]
   · simp [State.isDone, State.ctxOf]
   · simp [State.hasErr, State.ctxOf]
@@ -316,5 +429,157 @@ example :
 example :
     let st := run [.new, .child 0 true, .kill 0]
     st.hasErr 0 = true ∧ st.isDone 1 = false := by decide
+
+/-! ### 9. Listeners are arbitrary code: what holds while they run -/
+
+/-- In EVERY reachable state: if a parent has started its commit or rollback triple (its wait has
+ended), then every child that signed on before the wait ended has signed off — it has fired its whole
+sequence, after-close last, and ALL its after-close listeners have returned (its goroutine is in no
+listener). -/
+theorem child_afterclose_before_parent_triple (sched : List Act) (p c : Nat)
+    (hpar : ((run sched).scp c).parent = some p) (hreg : ((run sched).scp c).registered = true)
+    (hlate : ((run sched).scp c).late = false)
+    (hfire : Ev.beforeCommit ∈ (run sched).closeTrace p ∨ Ev.beforeRollback ∈ (run sched).closeTrace p ∨
+      ((run sched).scp p).phase.waited = true) :
+    ((run sched).scp c).phase.live = false ∧ ((run sched).scp c).park = none ∧
+    (run sched).closeTrace c = fullSeq ((run sched).scp c).rolled ∧
+    Ev.afterClose ∈ (run sched).closeTrace c := by
+  have hI := inv_run sched
+  have hw : ((run sched).scp p).phase.waited = true := by
+    rcases hfire with h | h | h
+    · exact waited_of_triple hI (Or.inl h)
+    · exact waited_of_triple hI (Or.inr h)
+    · exact h
+  have hl := hI.x.nonLate c p hpar hreg hlate hw
+  have hf := signed_off_facts hI hl
+  refine ⟨hl, hf.1, hf.2, ?_⟩
+  rw [hf.2]; cases ((run sched).scp c).rolled <;> decide
+
+-- non-vacuity: parent 0 commits after child 1's gated after-close listener has been released
+example :
+    let st := run [.new, .child 0 false, .onGated 1 .afterClose false 0, .close 0, .close 1, .finish 1,
+                   .release 0, .step 1, .step 1, .step 0, .step 0]
+    (st.scp 1).parent = some 0 ∧ (st.scp 1).registered = true ∧ (st.scp 1).late = false ∧
+      Ev.beforeCommit ∈ st.closeTrace 0 := by decide
+-- a late child: created by another goroutine while the parent is parked in a commit listener
+example :
+    let st := run [.new, .onGated 0 .commit false 0, .close 0, .finish 0, .child 0 false]
+    (st.scp 1).late = true ∧ (st.scp 1).registered = true ∧ (st.scp 0).phase = .t1 := by decide
+
+/-- An error returned by a before-close, commit, rollback or after-close listener of a child that
+shares the parent's context is in the parent's context BEFORE the parent picks commit or rollback:
+when the parent's wait ends, a shared child that signed on (before) and whose `Close` had a failing
+listener makes the parent roll back, and in every continuation no trigger of that child's `Close`
+runs any more (`lfail` is final, its goroutine is in no listener). -/
+theorem parent_sees_child_listener_error (sched : List Act) (p c : Nat)
+    (hpar : ((run sched).scp c).parent = some p) (hreg : ((run sched).scp c).registered = true)
+    (hiso : ((run sched).scp c).iso = false)
+    (a : Act) (hp : IsPick (run sched) a p) (st' : State) (o : Outcome)
+    (he : exec (run sched) a = some (st', o)) :
+    (((run sched).scp c).lfail = true → (run sched).hasErr p = true ∧ (st'.scp p).rolled = true) ∧
+    ∀ rest : List Act,
+      ((runFrom st' rest).scp c).lfail = ((run sched).scp c).lfail ∧
+      ((runFrom st' rest).scp c).park = none ∧ ((runFrom st' rest).scp c).phase.live = false := by
+  have hI := inv_run sched
+  obtain ⟨hl, hpk, _⟩ := (close_waits_partial sched p a hp st' o he).2 c hpar hreg
+  obtain ⟨_, _, _, _, _, _, _, _, hr⟩ := pick_facts hI hp he
+  have hc : c < (run sched).nScopes := hI.s.parent_lt_n hpar
+  constructor
+  · intro hlf
+    have h1 := hI.x.lfailErr c hlf
+    rw [hI.s.sharedCtx c p hpar hiso] at h1
+    have : (run sched).hasErr p = true := by simpa [State.hasErr, State.ctxOf] using h1
+    exact ⟨this, by rw [hr, this]⟩
+  · intro rest
+    have m := (mono_exec hI he).trans (mono_runFrom (inv_exec hI he) rest)
+    have := m.frozen c hc hl
+    exact ⟨this.2.1, by rw [this.2.2, hpk], this.1⟩
+
+-- the child's gated after-close listener returns an error: the parent rolls back
+example :
+    let st := run [.new, .child 0 false, .onGated 1 .afterClose true 0, .close 0, .close 1, .finish 1,
+                   .release 0, .step 1, .step 1]
+    (st.scp 1).lfail = true ∧ (st.scp 1).iso = false ∧ IsPick st (.finish 0) 0 ∧
+      (exec st (.finish 0)).map (·.2) = some (.closed true) := by
+  refine ⟨by decide, by decide, Or.inl rfl, by decide⟩
+
+/-- A goroutine parked inside a listener takes no lock any other goroutine needs: whether an act is
+enabled does not depend on scope `c` being parked, except for `c`'s own closing goroutine and for `On`
+on the event scope that owns the running listener (its read lock is held). -/
+theorem gated_listener_blocks_only_its_closer (sched : List Act) (c : Nat) (pk : Park)
+    (hp : ((run sched).scp c).park = some pk) (a : Act)
+    (h1 : a ≠ .step c) (h2 : a ≠ .finish c) (h3 : ∀ ev f, a ≠ .on pk.owner ev f)
+    (h4 : ∀ ev f g, a ≠ .onGated pk.owner ev f g) :
+    (exec (run sched) a).isSome = (exec ((run sched).unpark c) a).isSome :=
+  enabled_unpark hp a h1 h2 h3 h4
+
+/-- … in particular every call on any allocated scope goes through (it returns or panics, it does
+not block), the goroutine of any other scope `t` whose wait group is zero can end its wait, and the
+only thing that waits for `c` is the `Wait()` of a scope whose wait group still counts it. -/
+theorem others_can_act_while_parked (sched : List Act) (c t : Nat) (pk : Park)
+    (_hp : ((run sched).scp c).park = some pk) (ht : t < (run sched).nScopes) :
+    (exec (run sched) (.kill t)).isSome = true ∧ (exec (run sched) (.stop t)).isSome = true ∧
+    (exec (run sched) (.appErr t)).isSome = true ∧ (∀ n, (exec (run sched) (.addTasks t n)).isSome = true) ∧
+    (exec (run sched) (.close t)).isSome = true ∧
+    (((run sched).scp t).phase = .closing → ((run sched).scp t).wg = 0 →
+      (exec (run sched) (.step t)).isSome = true ∧ (exec (run sched) (.finish t)).isSome = true) := by
+  have hI := inv_run sched
+  refine ⟨?_, ?_, ?_, ?_, ?_, ?_⟩
+  · simp only [exec, execWith, ht, if_true]; split <;> rfl
+  · simp only [exec, execWith, ht, if_true]; split <;> rfl
+  · simp only [exec, execWith, ht, if_true]; split <;> rfl
+  · intro n; simp only [exec, execWith, ht, if_true]; split <;> rfl
+  · simp only [exec, execWith, ht, if_true]; split <;> rfl
+  · intro hph hwg
+    have hpk : ((run sched).scp t).park = none := hI.x.park_none (by rw [hph]; rfl)
+    constructor
+    · simp only [exec, execWith, ht, if_true]
+      rw [micro_isSome]
+      simp [menabled, hpk, hph, hwg, evOf]
+    · simp [exec, execWith, ht, hph, hpk, hwg]
+
+-- child 1 is parked in its after-close listener; sibling 2 closes completely meanwhile, scope 0 is killed
+example :
+    let st := run [.new, .child 0 false, .child 0 true, .onGated 1 .afterClose false 0, .close 1, .finish 1]
+    (∃ pk, (st.scp 1).park = some pk) ∧
+      ((runFrom st [.close 2, .finish 2, .kill 0]).scp 2).phase = .finished ∧
+      (runFrom st [.close 2, .finish 2, .kill 0]).hasErr 0 = true := by
+  refine ⟨⟨_, rfl⟩, by decide, by decide⟩
+
+/-- Ungated listeners keep the atomic semantics of the coarse protocol: if no listener on the chain
+of `s` is gated, a trigger of `Close` never parks — it is `scp.appendError(scp.Trigger(ev, scp))` in one
+piece (`fire`), followed by the move of the program counter. -/
+theorem ungated_trigger_is_atomic (sched : List Act) (s : Nat) (ev : Ev)
+    (h : (run sched).ungatedChain s) :
+    (run sched).startTrigger s ev =
+      ((run sched).fire s ev (some s)).modScp s fun x =>
+        { x with phase := x.phase.next, park := none,
+                 lfail := ((run sched).trigger s ev (some s)).2 || x.lfail } :=
+  startTrigger_ungated (run sched) s ev h
+
+example : (run [.new, .on 0 .commit true, .child 0 false, .on 1 .afterClose false]).ungatedChain 1 := by
+  unfold State.ungatedChain; decide
+
+/-- THE ORDER MATTERS.  In the variant system with `parent.DoneTask()` before the AfterClose trigger
+(`execSw`/`runSw`), a state is reachable that contradicts `child_afterclose_before_parent_triple`:
+the parent has fired its commit triple, returned nil (`result = some false`) — while its signed-on,
+shared-context child is still inside its after-close listener; when that listener then returns an
+error the parent's context holds an error although the parent committed. -/
+theorem signoff_before_afterclose_breaks_waits :
+    ∃ (sched : List Act) (p c : Nat),
+      ((runSw sched).scp c).parent = some p ∧ ((runSw sched).scp c).registered = true ∧
+      ((runSw sched).scp c).late = false ∧ ((runSw sched).scp c).iso = false ∧
+      Ev.beforeCommit ∈ (runSw sched).closeTrace p ∧ ((runSw sched).scp p).phase.waited = true ∧
+      ¬ (((runSw sched).scp c).phase.live = false ∧ ((runSw sched).scp c).park = none) ∧
+      ((runSw sched).scp c).park.isSome = true ∧ ((runSw sched).scp p).result = some false ∧
+      (runSw (sched ++ [.release 0, .step c])).hasErr p = true ∧
+      ((runSw (sched ++ [.release 0, .step c])).scp p).rolled = false :=
+  ⟨[.new, .child 0 false, .onGated 1 .afterClose true 0, .close 0, .close 1, .finish 1, .finish 0], 0, 1,
+    by decide⟩
+
+-- the same schedule in the system of the code: the parent is still waiting
+example :
+    let st := run [.new, .child 0 false, .onGated 1 .afterClose true 0, .close 0, .close 1, .finish 1, .finish 0]
+    (st.scp 0).phase = .closing ∧ st.parked 1 = true ∧ (st.scp 0).result = none := by decide
 
 end Goat.C11
